@@ -168,6 +168,29 @@ func RLock(m interface {
 	}
 }
 
+// Send performs a channel send cooperatively: `try` is a non-blocking attempt, `block` the plain send. A send
+// that cannot proceed parks the thread as blocked instead of blocking the OS thread, so that a thread waiting
+// for ever on a channel shows up as a deadlock of the schedule and not as a hang of the harness.
+func Send(label string, try func() bool, block func()) {
+	s := cur
+	if s == nil {
+		if f := OnYield; f != nil {
+			f(label)
+		}
+		// no scheduler: the caller is the only thread that runs; a send that cannot proceed now never will
+		if !try() {
+			panic("send would block for ever: " + label)
+		}
+		_ = block
+
+		return
+	}
+	s.yield(label, false)
+	for !try() {
+		s.yield(label, true)
+	}
+}
+
 // ViewEnter / ViewExit bracket a bbolt read transaction; CloseWait parks db.Close while one is open.
 func ViewEnter() {
 	if s := cur; s != nil {
@@ -193,5 +216,17 @@ func CloseWait(label string) {
 	s.yield(label, false)
 	for s.readers > 0 {
 		s.yield(label, true)
+	}
+}
+
+// OnKillPoint, when set, is called at every kill point: places inside a bbolt write transaction (before the
+// sequence is taken, before the Put, before each Delete of the retention cleanup) and inside bbolt's own
+// Commit (before the dirty pages are written, before the meta page is written, after it). Kill points are
+// not scheduling points: the thread does not yield, the model's db.Update stays one step.
+var OnKillPoint func(label string)
+
+func KillPoint(label string) {
+	if OnKillPoint != nil {
+		OnKillPoint(label)
 	}
 }
